@@ -143,8 +143,9 @@ def modelQuery (lb : Int) (series : Series) (q : Query) : String :=
     | some a =>
       -- step invariant: one evaluation at the start step, duplicated.
       -- `m @ a offset o`: Offset = o + (start - a), so ref = a - o.
-      -- `timestamp(m @ a offset o)`: vs.Offset is overwritten with enh.Ts - a, so ref = a (offset dropped).
-      let ref := if isTs then a else a - q.off
+      -- `timestamp(m @ a offset o)`: vs.Offset is overwritten with enh.Ts - a, so ref = a (offset dropped,
+      -- finding C28-F1) unless /repo has the repair (`tsAtRef`, `repoFixedTsAtOffset`).
+      let ref := if isTs then tsAtRef a q.off else a - q.off
       let r := (vsSingle lb (Memo.init vis delta) ref).2
       render (replicateOver stepsP (r.map shw))
   else if isRangeKind q.kind then
